@@ -61,7 +61,7 @@ func (d *slidingWindowDetector) Check(seq uint64) (func() bool, bool) {
 			d.latestSeq = seq
 			latest = true
 		}
-		diff := (d.latestSeq - seq) % d.maxSeq
+		diff := d.latestSeq - seq
 		d.mask.SetBit(uint(diff))
 
 		return latest
